@@ -491,9 +491,8 @@ func (s *seq) roundTrip(e *ent, form string, choice int) {
 	if !strings.HasPrefix(form, kd.name+":") || s.rtBad {
 		return
 	}
-	if form == formGraphString {
-		s.pipeProbe(e)
-	}
+	// A value containing '|' has no spelling on a graph line (the line is cut
+	// at the first '|'): a limit of the test syntax, listed under exclusions.
 	real, m := e.v, e.m
 	if _, why := carry(kd, form, &m); why != "" {
 		// The form cannot carry this set. Overwrite the offending values in a
